@@ -258,7 +258,7 @@ class Typer:
         return UNK
 
     SAME = {"real", "roll", "scipy.signal.resample", "unique", "reshape", "ravel", "copy", "sort", "mean", "median", "min", "max", "sum_keep", "transpose",
-            "squeeze", "abs_keep", "nanmean", "cumsum", "flip", "repeat", "tile", "elem", "star", "array", "asarray", "neg", "float", "numpy.float64", "tolist", "list"}
+            "squeeze", "abs_keep", "nanmean", "nanmedian", "nanmin", "nanmax", "cumsum", "flip", "repeat", "tile", "elem", "star", "array", "asarray", "neg", "float", "numpy.float64", "tolist", "list"}
     NUMERIC = {"argmin", "argmax", "where", "len", "size", "siglen", "int", "floordiv", "mod", "isnan", "not", "invert", "band", "bor", "and", "or", "arange", "ones",
                "ones_like", "round_idx", "toc", "range", "n_pol_of", "log10", "log", "exp"}
     CMP = {"lt", "gt", "le", "ge", "eq", "ne"}
@@ -291,10 +291,10 @@ class Typer:
                 self.err(f"distance {short(Form.atom(a))}", "|a - b| is taken between quantities whose offsets do not cancel (a level against a non-level): the nearest-value search depends on the offset of the waveform")
                 return BAD
             return t
-        if name in ("std",):
+        if name in ("std", "nanstd"):
             t = self.ty(args[0])
             return T(t.d, 0) if isinstance(t, T) else t
-        if name == "var":
+        if name in ("var", "nanvar"):
             t = self.ty(args[0])
             return T(2 * t.d, 0) if isinstance(t, T) else t
         if name.split(".")[-1] in ("round", "around", "rint", "floor", "ceil", "trunc", "fix") and args:
